@@ -270,3 +270,65 @@ Proof.
     change (last (strip l0 :: map (fun y => [32] ++ y) (map strip (l1 :: ls'))) [0]) with (last (map (fun y => [32] ++ y) (map strip (l1 :: ls'))) [0]).
     rewrite map_map. destruct (exists_last (l := l1 :: ls')) as (pre & z & E); [discriminate|]. rewrite E, map_app. cbn [map]. rewrite last_last. discriminate.
 Qed.
+
+(* ---------- the License field ---------- *)
+
+Lemma strip_fixed_rstrip s : strip s = s -> rstrip s = s.
+Proof.
+  intros H. unfold rstrip. rewrite <- H at 1. unfold strip, strip_by. rewrite rstrip_by_idem. exact H.
+Qed.
+
+(* a short name and a text in decoded normal form (first text line not empty) render to a value that
+   parses back to exactly that name and text *)
+Theorem license_stable n t0 trest : n <> [] -> strip n = n -> nolb n ->
+  normal_lines (t0 :: trest) -> t0 <> [] ->
+  lic_from_value (lic_dumps n (join [LF] (t0 :: trest))) = (n, join [LF] (t0 :: trest)).
+Proof.
+  intros Hn Hsn Hnl (Hnolb & Hs0 & Hrest & Hlast) Ht0.
+  assert (Hhead0 : match t0 with c :: _ => is_space c = false | [] => True end).
+  { destruct t0 as [|c r] eqn:E; [exact I|]. unfold strip in Hs0. rewrite <- E in Hs0. rewrite E in Hs0. now apply strip_by_head in Hs0. }
+  assert (Hheadn : match n with c :: _ => is_space c = false | [] => True end).
+  { destruct n as [|c r] eqn:E; [exact I|]. unfold strip in Hsn. now apply strip_by_head in Hsn. }
+  set (t := join [LF] (t0 :: trest)).
+  assert (Et : exists c r, t = c :: r /\ is_space c = false).
+  { subst t. destruct t0 as [|c r0]; [contradiction|]. destruct trest; [exists c, r0|rewrite join_cons; exists c, (r0 ++ [LF] ++ join [LF] (s :: trest))]; split; auto. }
+  destruct Et as (c & r & Etc & Hc).
+  assert (Esplit : splitlines t = t0 :: trest) by (subst t; apply splitlines_join; [reflexivity|exact Hnolb|discriminate|exact Hlast]).
+  (* the rendering *)
+  assert (Edump : lic_dumps n t = join [LF] (n :: map (fun l => SP :: fmt1 l) (t0 :: trest))).
+  { unfold lic_dumps, desc_dumps. cbv zeta. rewrite Hsn, Etc. assert (E32 : (c =? 32) = false) by (destruct (N.eqb_spec c 32) as [->|]; [discriminate|reflexivity]).
+    rewrite E32, <- Etc, Esplit, as_formatted_lines_cons.
+    assert (Ef0 : fmt0 n = n). { unfold fmt0. destruct (all_space n) eqn:E; [|reflexivity]. destruct n as [|x n']; [contradiction|]. unfold all_space in E. cbn [forallb] in E. rewrite Hheadn in E. discriminate. }
+    rewrite Ef0. unfold strip. apply strip_by_fixed.
+    - cbn [map]. rewrite join_cons. destruct n; [contradiction|exact Hheadn].
+    - (* the last character is the last character of the last text line, which is not a space *)
+      destruct (exists_last (l := t0 :: trest)) as (pre & lz & El); [discriminate|]. rewrite El in *. rewrite last_last in Hlast.
+      assert (Hz : rstrip lz = lz).
+      { destruct pre as [|p0 pre']; cbn [app] in El.
+        - inversion El; subst. now apply strip_fixed_rstrip.
+        - inversion El; subst. apply Forall_app in Hrest as [_ Hz]. inversion Hz as [|? ? [Hz1 _] _]; subst. exact Hz1. }
+      assert (Hfz : fmt1 lz = lz).
+      { unfold fmt1. destruct (all_space lz) eqn:E; [|reflexivity]. exfalso. unfold rstrip in Hz. rewrite rstrip_by_all in Hz by exact E. now subst. }
+      destruct (rstrip_by_last is_space lz) as [E0|(a & x & Ea & Hx)]; [unfold rstrip in Hz; rewrite Hz in E0; contradiction|].
+      unfold rstrip in Hz. rewrite Hz in Ea.
+      assert (Ej : exists pre', join [LF] (n :: map (fun l => SP :: fmt1 l) (pre ++ [lz])) = pre' ++ [x]).
+      { rewrite map_app. cbn [map]. rewrite Hfz, Ea.
+        change (n :: map (fun l => SP :: fmt1 l) pre ++ [SP :: a ++ [x]]) with ((n :: map (fun l => SP :: fmt1 l) pre) ++ [(SP :: a) ++ [x]]).
+        apply (join_last_char [LF] _ (SP :: a) x); [destruct (map _ pre); discriminate|now rewrite last_last]. }
+      destruct Ej as (pre' & Ej). rewrite Ej. now apply rstrip_by_snoc_keep. }
+  rewrite Edump. unfold lic_from_value, desc_from_value, line_separated.
+  assert (Esp2 : splitlines (join [LF] (n :: map (fun l => SP :: fmt1 l) (t0 :: trest))) = n :: map (fun l => SP :: fmt1 l) (t0 :: trest)).
+  { apply splitlines_join; [reflexivity| |discriminate|].
+    - constructor; [exact Hnl|]. rewrite Forall_map. eapply Forall_impl; [|exact Hnolb]. intros l Hl. now apply nolb_sp_fmt1.
+    - change (last (n :: map (fun l => SP :: fmt1 l) (t0 :: trest)) [0]) with (last (map (fun l => SP :: fmt1 l) (t0 :: trest)) [0]).
+      apply last_map_cons; [discriminate|intros x; discriminate]. }
+  rewrite Esp2, Hsn. f_equal. cbn [map from_formatted_lines].
+  assert (E0 : strip (SP :: fmt1 t0) = t0).
+  { assert (Hf : fmt1 t0 = t0). { unfold fmt1. destruct (all_space t0) eqn:E; [|reflexivity]. exfalso. unfold strip in Hs0. rewrite strip_by_all in Hs0 by exact E. now subst. }
+    rewrite Hf. unfold strip at 1. unfold strip_by, lstrip_by. cbn [drop_while]. change (is_space SP) with true. cbv iota.
+    fold (lstrip_by is_space t0). fold (strip_by is_space t0). exact Hs0. }
+  rewrite E0. rewrite map_map.
+  rewrite (map_ext_Forall _ (fun l => l)); [rewrite map_id|].
+  - unfold lstrip, lstrip_by. fold t. rewrite Etc. cbn [drop_while]. now rewrite Hc.
+  - eapply Forall_impl; [|exact Hrest]. intros l [Hr Hp]. rewrite decode_cont by exact Hp. exact Hr.
+Qed.
